@@ -1065,7 +1065,12 @@ func (r *Raft) sendAppendEntriesToPeers() {
 		r.tryApplyReadOnlyOperations(round)
 	}
 
-	numResponses := 1
+	// This node only counts toward the quorum that confirms its leadership if it is a voting
+	// member of the configuration in use (a leader that is removing itself is not).
+	numResponses := 0
+	if r.isVoter(r.id) {
+		numResponses = 1
+	}
 	for id, address := range r.configuration.Members {
 		if id != r.id {
 			go r.sendAppendEntries(id, address, &numResponses, round)
